@@ -107,6 +107,28 @@ def classify(facts, tn, f, bi, kind, t):
                     g = guards.holds(f, bi, lambda fa: fa[0] == "cmp" and fa[1] == "Le" and fa[3] == ("c", 57) or fa[0] == "cmp" and fa[1] == "Le" and fa[2] == ("c", 48) or fa[0] == "bool" and fa[2] is True and fa[1][0] == "call" and norm(fa[1][2]).endswith("is_ascii_digit"))
                     if g:
                         return "from-primitive-digit", "from_u8(byte - b'0') with byte in '0'..='9'"
+            if n.endswith(("slice::split_last", "slice::split_first", "slice::last", "slice::first", "<impl [T]>::split_last", "<impl [T]>::split_first", "<impl [T]>::last", "<impl [T]>::first")):
+                # of a vector that was built by vec![..] with elements and only pushed to since: never empty
+                base = a[3][0]
+                for _ in range(4):
+                    if base[0] == "call" and norm(base[2]).endswith(("::deref", "::as_slice", "::borrow", "Index<I>>::index")):
+                        base = base[3][0]
+                    elif base[0] == "l":
+                        b2 = sy.origin(base)
+                        if b2 == base:
+                            break
+                        base = b2
+                    else:
+                        break
+                bo = base
+                if bo[0] == "call" and "into_vec" in norm(bo[2]):
+                    return "nonempty-literal", "the slice is a vector created by vec![..] with at least one element (elements are only added afterwards)"
+                if bo[0] == "l":
+                    defs = sy.defs.get(bo[1], [])
+                    if defs and all(d[0] == "call" and "into_vec" in norm(util.cname(d[2])) for d in defs):
+                        shrink = [1 for bb2, t2 in f.calls() if util.cname(t2).rsplit("::", 1)[-1] in ("pop", "clear", "truncate", "remove", "swap_remove", "drain", "retain") and strip_bb(sy.operand(t2["args"][0])) == strip_bb(bo)]
+                        if not shrink:
+                            return "nonempty-literal", "the slice is a vector created by vec![..] with at least one element and never shrunk"
             if n.endswith("Vec::pop"):
                 recv = strip_bb(a[3][0])
                 c = cfg(f)
